@@ -9,7 +9,9 @@ import traceback
 from . import common
 
 
-class CaseTimeout(Exception):
+class CaseTimeout(BaseException):
+    """raised by the per-case alarm; a BaseException so that no 'except Exception' on the way (harness or library)
+    can turn the harness's own time limit into an observed outcome of the library"""
     pass
 
 
